@@ -22,7 +22,7 @@ from pyvc.values import AbsObj, Arr, Obj, Opaque, PDict, PList, SV, mk, sym, to_
 OPS = ("add", "add_shared", "update", "remove", "reopen", "add_nan", "add_text", "update_text", "remove_hole_ws", "remove_hole_parent", "copy_group", "group_data", "idle_session",
        "add_iv", "update_iv", "copy_other_edit", "add_note", "remove_note", "group_comment", "group_comment_remove", "rename", "list_registries")
 # operations added later draw from their own random stream, so that the histories sampled above stay the same
-OPS_LATER = ("remove_pg", "rename_onto", "copy_onto_own_hole")
+OPS_LATER = ("remove_pg", "rename_onto", "copy_onto_own_hole", "second_group")
 
 
 def _file_tiling(path):
@@ -270,6 +270,12 @@ def run_history(case):
                     if dn in model[hname]:
                         del model[hname][dn]
                         removed.setdefault(hname, set()).add(dn)
+            elif op == "second_group":
+                # the hole's numeric depth logs are also listed by a second property group
+                members = [hole.get_data(n)[0].uid for n in sorted(model[hname]) if not n.endswith(("_txt", "_note", "_iv")) and hole.get_data(n) and hole.get_data(n)[0] is not None]
+                gname = f"second-{step}"
+                if members and not any(x.name.startswith("second-") for x in (hole.property_groups or [])):
+                    hole.create_property_group(name=gname, properties=members)
             elif op == "rename_onto":
                 # a data set is given the name of another data set of its hole (names are unique on a drillhole: add_data refuses
                 # a second one): refused with nothing changed, or carried out with both data sets still readable
@@ -571,6 +577,8 @@ class ConcatHistories(Contract):
             [("add_text", 0, "Au"), ("add", 0, "Au"), ("add", 1, "Au"), ("reopen", 0, ""), ("remove_pg", 0, "Au"), ("update", 1, "Au"), ("reopen", 0, "")],
             [("add", 0, "Au"), ("add", 0, "Cu"), ("add", 1, "Au"), ("rename_onto", 0, "Au"), ("reopen", 0, "")],
             [("add", 0, "Au"), ("add", 0, "Cu"), ("reopen", 0, ""), ("rename_onto", 0, "Cu"), ("update", 0, "Au"), ("reopen", 0, "")],
+            [("add", 0, "Au"), ("add", 0, "Cu"), ("add", 1, "Au"), ("second_group", 0, ""), ("remove", 0, "Au"), ("reopen", 0, "")],
+            [("add", 0, "Au"), ("add", 0, "Cu"), ("second_group", 0, ""), ("reopen", 0, ""), ("remove", 0, "Cu"), ("remove", 0, "Au"), ("reopen", 0, "")],
             [("add", 0, "Au"), ("add", 1, "Au"), ("copy_onto_own_hole", 0, "Au"), ("reopen", 0, "")],
             [("add", 0, "Au"), ("add", 1, "Au"), ("reopen", 0, ""), ("copy_onto_own_hole", 1, "Au"), ("update", 1, "Au"), ("reopen", 0, "")],
         ]
